@@ -21,12 +21,42 @@ def split_binders(hdr):
     raise SystemExit('no colon in header')
 
 def binder_names(b):
+    """names bound by a binder list such as  x (a b : T) (m : metric (T:=R)) {n : nat}"""
     names = []
-    # (x y : T) groups and bare names
-    for grp in re.findall(r'\(([^()]*?):[^()]*\)|\{([^{}]*?):[^{}]*\}|([A-Za-z_][A-Za-z0-9_\']*)', b):
-        g = grp[0] or grp[1] or grp[2]
-        names += g.split()
+    i, n = 0, len(b)
+    while i < n:
+        ch = b[i]
+        if ch in '({':
+            depth, j = 1, i + 1
+            while j < n and depth:
+                if b[j] in '({[':
+                    depth += 1
+                elif b[j] in ')}]':
+                    depth -= 1
+                j += 1
+            inner = b[i + 1:j - 1]
+            # names before the first ':' at depth 0 of the group
+            d, cut = 0, len(inner)
+            for k, c in enumerate(inner):
+                if c in '({[':
+                    d += 1
+                elif c in ')}]':
+                    d -= 1
+                elif c == ':' and d == 0 and inner[k:k + 2] != ':=':
+                    cut = k
+                    break
+            names += inner[:cut].split()
+            i = j
+        elif ch.isspace():
+            i += 1
+        else:
+            j = i
+            while j < n and not b[j].isspace() and b[j] not in '({':
+                j += 1
+            names.append(b[i:j])
+            i = j
     return names
+
 
 def main():
     pid = sys.argv[1]
